@@ -43,7 +43,7 @@ Proof. exact prefilter_keeps. Qed.
 Print Assumptions C13_prefilter_sound.
 
 (* JSON: if every non-empty line decodes, exactly the comprehension; if some non-empty line does not, the error
-   and no partial result.  (Per line the records follow the tracked-name list WITH multiplicity, see C13_json_dup_refuted.) *)
+   and no partial result.  (Per line the records follow the tracked-name list, each name once.) *)
 Theorem C13_json_spec : forall filt df compiles matches rfc3339 decode ms fs content,
   ms <> [] ->
   (existsb (malformed decode) (split_lines content) = false /\
@@ -54,8 +54,7 @@ Proof. exact collect_json_total. Qed.
 Print Assumptions C13_json_spec.
 
 (* Membership reading for JSON: a record is found iff some non-empty line decodes to an object in which a tracked
-   name has a string value; its timestamp is the line's.  With no tracked name listed twice a line never yields the
-   same record twice. *)
+   name has a string value; its timestamp is the line's.  A line never yields the same record twice. *)
 Theorem C13_json_exact : forall rfc3339 decode ms lines x,
   In x (flat_map (spec_json_line rfc3339 decode ms) (filter nonempty lines)) <->
   exists l kvs m v, In l lines /\ l <> [] /\ decode l = JObj kvs /\ In m ms /\ jlookup m kvs = Some (JString v) /\
@@ -63,7 +62,7 @@ Theorem C13_json_exact : forall rfc3339 decode ms lines x,
 Proof. exact json_found_exact. Qed.
 Print Assumptions C13_json_exact.
 
-Theorem C13_json_once : forall rfc3339 ms kvs, NoDup ms -> NoDup (json_records rfc3339 ms kvs).
+Theorem C13_json_once : forall rfc3339 ms kvs, NoDup (json_records rfc3339 ms kvs).
 Proof. exact json_records_nodup. Qed.
 Print Assumptions C13_json_once.
 
@@ -78,14 +77,6 @@ Theorem C13_timestamp_json : forall rfc3339 kvs,
   end.
 Proof. exact json_timestamp_cases. Qed.
 Print Assumptions C13_timestamp_json.
-
-(* Known finding json-duplicate-metric: one JSON line, one occurrence per name, yet a record is reported twice. *)
-Theorem C13_json_dup_refuted :
-  exists (decode : str -> jline) ms content r,
-    length (split_lines content) = 1%nat /\
-    collect unit tt (fun _ => true) (fun _ _ => []) (fun _ => false) decode JSON ms [] content = Ok r /\ ~ NoDup r.
-Proof. exact json_dup_refuted. Qed.
-Print Assumptions C13_json_dup_refuted.
 
 (* The fallback: objective (head of the list) never reported -> exactly one record (zero time, objective,
    "unavailable"); reported at least once -> the found records unchanged. *)
@@ -137,6 +128,20 @@ Theorem C13_epoch_refuted :
 Proof. exact epoch_refuted. Qed.
 Print Assumptions C13_epoch_refuted.
 
+(* F6 is not an accident of the witness: EVERY non-negative numeral with 1..8 fractional digits and a non-zero
+   fraction (what FormatFloat prints for a float64 epoch time with sub-second part) gets an instant that is not
+   its value, not even within one nanosecond. *)
+Theorem C13_epoch_fraction_wrong : forall ip fp i f,
+  ip <> [] -> fp <> [] -> parse_digits 0 ip = Some i -> parse_digits 0 fp = Some f ->
+  in_int64 i = true -> in_int64 f = true ->
+  let k := length fp in
+  let n := Numeral (i * 10 ^ Z.of_nat k + f) k i in
+  read_numeral (ip ++ dot :: fp) = Some n /\
+  epoch_instant (ip ++ dot :: fp) = Some (i * 10 ^ 9 + f) /\
+  (0 < f -> (k < 9)%nat -> same_instant n (i * 10 ^ 9 + f) = false).
+Proof. exact epoch_fraction_wrong. Qed.
+Print Assumptions C13_epoch_fraction_wrong.
+
 (* Totality of the model (the run-time panics it knows about are explicit outcomes): with a non-empty tracked list
    and filters that compile there is no Crash, for every format and every file. *)
 Theorem C13_total : forall filt df compiles matches rfc3339 decode fmt ms fs content,
@@ -161,11 +166,11 @@ Proof. exact collect_no_metrics_text. Qed.
 Print Assumptions C13_no_metrics_crash.
 
 (* The executable monitor that runs on implementation outputs accepts the model's output on D_ok:
-   regexp groups are pieces of the line; for JSON no tracked name is listed twice and every numeric timestamp is an
-   integral numeral (the complement of the two known-finding domains). *)
+   regexp groups are pieces of the line; for JSON every numeric timestamp is an integral numeral
+   (the complement of the known-finding domain). *)
 Theorem C13_monitor_sound : forall filt df compiles matches rfc3339 decode fmt ms fs content,
   groups_substr filt matches ->
-  (fmt = JSON -> NoDup ms /\ integral_timestamps decode (split_lines content)) ->
+  (fmt = JSON -> integral_timestamps decode (split_lines content)) ->
   monitor filt df compiles matches rfc3339 decode fmt ms fs content
           (attach_result (collect filt df compiles matches rfc3339 decode fmt ms fs content)) = true.
 Proof. exact monitor_model. Qed.
